@@ -98,8 +98,8 @@ impl McPersist {
 			}
 		}
 		let in_progress = g.async_all || g.async_chans.contains(&chan);
-		let seq = g.seq;
-		g.seq += 1;
+		let seq = crate::base::next_seq();
+		g.seq = seq + 1;
 		let bytes = Arc::new(m.encode());
 		let snap = Snapshot {
 			monitor_update_id: m.get_latest_update_id(),
